@@ -38,7 +38,11 @@ func Gen(cfgs []string) func(t *rapid.T) *Case {
 			// batch >= log length: smaller batches cut chunks short (known finding, probed separately)
 			c.Batch = rapid.SampledFrom([]int{0, 25, 26, 100}).Draw(t, "batch")
 		}
+		c.Fill = rapid.SampledFrom([]string{"", "", "bus", "mixed"}).Draw(t, "fill")
 		c.Fault = rapid.SampledFrom(faultsFor(c.Config)).Draw(t, "fault")
+		if c.Fault == "badrow" {
+			c.Fill = ""
+		}
 		if c.Fault != "none" && c.Fault != "cancel-before" {
 			c.K = rapid.IntRange(1, c.N-c.Start+2).Draw(t, "k")
 			if c.Fault == "badrow" {
